@@ -8,6 +8,13 @@ from .auto_determine import auto_determine_solver
 from pymoto import DomainDefinition
 
 
+def _lu_solve(lu, rhs, trans='N', iscomplex=True):
+    """ Solve using a SuperLU factorization, which only accepts a real right-hand-side in case of a real matrix """
+    if not iscomplex and np.iscomplexobj(rhs):
+        return lu.solve(rhs.real, trans=trans) + 1j * lu.solve(rhs.imag, trans=trans)
+    return lu.solve(rhs, trans=trans)
+
+
 class Preconditioner(LinearSolver):
     """ Abstract base class for preconditioners to inexact solvers """
     def update(self, A):
@@ -61,6 +68,7 @@ class SOR(Preconditioner):
 
     def update(self, A):
         diag = A.diagonal()
+        self.iscomplex = np.iscomplexobj(A)
         diagw = sps.diags(diag)/self.w
         self.L = splu(sps.tril(A, k=-1) + diagw)  # Lower triangular part including diagonal
         self.U = splu(sps.triu(A, k=1) + diagw)
@@ -72,20 +80,20 @@ class SOR(Preconditioner):
             # M = (D/w + L) wD^-1 / (2-w) (D/w + U)
             # from scipy.sparse.linalg import spsolve_triangular
             # u1 = spsolve_triangular(self.L, rhs, lower=True, overwrite_A=False)  # Solve triangular is still very slow :(
-            u1 = self.L.solve(rhs)
+            u1 = _lu_solve(self.L, rhs, iscomplex=self.iscomplex)
             u1 *= self.Dw[:, None]
             # u2 = spsolve_triangular(self.U, u1, lower=False, overwrite_A=False, overwrite_b=True)
-            u2 = self.U.solve(u1)
+            u2 = _lu_solve(self.U, u1, iscomplex=self.iscomplex)
             return u2
         elif trans == 'T':
-            u1 = self.U.solve(rhs, trans='T')
+            u1 = _lu_solve(self.U, rhs, trans='T', iscomplex=self.iscomplex)
             u1 *= self.Dw[:, None]
-            u2 = self.L.solve(u1, trans='T')
+            u2 = _lu_solve(self.L, u1, trans='T', iscomplex=self.iscomplex)
             return u2
         elif trans == 'H':
-            u1 = self.U.solve(rhs, trans='H')
+            u1 = _lu_solve(self.U, rhs, trans='H', iscomplex=self.iscomplex)
             u1 *= self.Dw[:, None].conj()
-            u2 = self.L.solve(u1, trans='H')
+            u2 = _lu_solve(self.L, u1, trans='H', iscomplex=self.iscomplex)
             return u2
         else:
             raise TypeError("Only N, T, or H transposition is possible")
@@ -104,10 +112,11 @@ class ILU(Preconditioner):
         super().__init__(A)
 
     def update(self, A):
+        self.iscomplex = np.iscomplexobj(A)
         self.ilu = spilu(A, **self.kwargs)
 
     def solve(self, rhs, x0=None, trans='N'):
-        return self.ilu.solve(rhs, trans=trans)
+        return _lu_solve(self.ilu, rhs, trans=trans, iscomplex=self.iscomplex)
 
 
 class GeometricMultigrid(Preconditioner):
